@@ -1181,10 +1181,49 @@ fn mk_case(mode: Sx, gw: &GenWorld, client: &str, frames: &[Vec<u8>], payload: O
 fn gen_good_request(rng: &mut Rng, gw: &GenWorld, tok: &str, tags: &mut Vec<String>) -> Vec<u8> {
     let p = |i: usize| json!({"token": tok, "i": i});
     let mut v: Value;
-    match rng.below(15) {
+    match rng.below(17) {
         0 => {
             tags.push("req:getinfo".into());
             v = json!({"method":"org.varlink.service.GetInfo"});
+        }
+        15 => {
+            // the calls the bridge redirects / answers itself, with flags: a oneway call is never answered,
+            // `more` changes nothing for a method with one reply
+            let flag = *rng.pick(&["oneway", "oneway", "more"]);
+            tags.push(format!("req:builtin-{}", flag));
+            v = match rng.below(3) {
+                0 | 1 => json!({"method":"org.varlink.service.GetInfo"}),
+                _ => {
+                    let names: Vec<String> = gw.scripts.iter().map(|s| s.0.clone()).chain(std::iter::once("org.example.vtest".to_string())).collect();
+                    json!({"method":"org.varlink.service.GetInterfaceDescription","parameters":{"interface":rng.pick(&names).clone()}})
+                }
+            };
+            v[flag] = json!(true);
+            if rng.chance(1, 4) {
+                v["parameters"] = json!({});
+            }
+        }
+        16 => {
+            // a stream with an error reply in the middle: `continues` together with `error` is not the end
+            tags.push("req:script-stream-mid-error".into());
+            let s = rng.pick(&gw.scripts);
+            let k = rng.range(1, 4);
+            let at = rng.below(k);
+            let mut sc = vec![json!({"op":"cont","v":true})];
+            for i in 0..k {
+                if i == at {
+                    sc.push(json!({"op":"errtry","name":"org.example.Glitch","p":p(i)}));
+                } else {
+                    sc.push(json!({"op":"replytry","p":p(i)}));
+                }
+            }
+            sc.push(json!({"op":"cont","v":false}));
+            if rng.chance(1, 3) {
+                sc.push(json!({"op":"err","name":"org.example.Custom","p":p(k)}));
+            } else {
+                sc.push(json!({"op":"reply","p":p(k)}));
+            }
+            v = json!({"method": format!("{}.Run", s.0), "more": true, "parameters": {"script": sc, "token": tok}});
         }
         12 => {
             // a final reply whose OUT parameters have a member called `continues` (a paging method):
